@@ -56,8 +56,6 @@ Fixpoint all2 {A B} (f : A -> B -> bool) (a : list A) (b : list B) : bool :=
   | x :: a', y :: b' => f x y && all2 f a' b'
   | _, _ => false
   end.
-Definition select {A} (l : list A) (idx : list Z) : list A :=
-  flat_map (fun i => match nth_error l (Z.to_nat i) with Some x => [x] | None => [] end) idx.
 
 (* generator and Coq spec encoder agree, and the ground truth is a valid BAM *)
 Definition file_ok (c : case) : bool :=
@@ -80,15 +78,7 @@ Definition spec_ok (c : case) : bool :=
         && all2 (rec_matches refs) sel (w_reread w)) (k_writes c).
 
 (* ---------------------------------------------------------------- implementation = model *)
-Definition model_read (st : list Z) : option (list (list Z) * list Z * buf) :=   (* names, header bytes, buffer *)
-  match parse_header st with
-  | None => None
-  | Some (refs, off) =>
-      match read_whole_buf (skipn (Z.to_nat off) st) with
-      | None => None
-      | Some b => Some (map fst refs, firstn (Z.to_nat off) st, b)
-      end
-  end.
+Definition model_read := read_file.
 Definition model_ok (c : case) : bool :=
   match model_read (k_stream c) with
   | None => false
